@@ -106,9 +106,9 @@ def collapseLoop (tf : Int) : WalkSt F → List (Candle F) → PyM (WalkSt F)
 
 /-- fill candle placed `k` timeframes after `prev` -/
 def fillCandle (prev : Candle F) (t : Int) : Candle F :=
-  { o := prev.c, h := prev.c, l := prev.c, c := prev.c, v := .int 0, ts := some t }
+  { o := prev.rawClose, h := prev.rawClose, l := prev.rawClose, c := prev.rawClose, v := .int 0, ts := some t }
 
-/-- the `n` fill candles after `prev` (all carry `prev.close`) -/
+/-- the `n` fill candles after `prev` (all carry the raw close of `prev`) -/
 def fillRun (prev : Candle F) (tf : Int) (t : Int) : Nat → List (Candle F)
   | 0 => []
   | n+1 => fillCandle prev (t + tf) :: fillRun prev tf (t + tf) n
@@ -151,6 +151,12 @@ def collapseCandles (tf : Option Int) (fill : Bool) (cs : List (Candle F)) : PyM
 
 /-! ### trimming -/
 
+/-- `candles[0].timestamp and candles[0].timestamp < latest - lifespan` -/
+def tooOld (bound : Int) (c : Candle F) : Bool :=
+  match c.ts with
+  | some t => decide (t < bound)
+  | none => false
+
 def trimCandles (lifespan : Option Int) (cs : List (Candle F)) : PyM (List (Candle F)) :=
   match lifespan, cs.getLast? with
   | none, _ => .ok cs
@@ -159,9 +165,7 @@ def trimCandles (lifespan : Option Int) (cs : List (Candle F)) : PyM (List (Cand
     match lastC.ts with
     | none => .ok cs
     | some latest =>
-      let r := cs.dropWhile fun c => match c.ts with
-        | some t => decide (t < latest - life)
-        | none => false
+      let r := cs.dropWhile (tooOld (latest - life))
       if r.isEmpty then .error .indexError else .ok r
 
 /-! ### the manager -/
